@@ -43,6 +43,7 @@ TARGETS = [
         "DocumentationAggregator.process_add_test",
         "DocumentationAggregator.process_ct_add_test",
         "DocumentationAggregator.process_ct_add_section",
+        "DocumentationAggregator.enterDocumented_module",
     ]),
     ("src/cminx/documentation_types.py", [
         "FunctionDocumentation.process",
@@ -57,7 +58,23 @@ TARGETS = [
         "AttributeDocumentation.process",
         "ModuleDocumentation.process",
     ]),
+    ("src/cminx/documenter.py", [
+        # the decision part: everything before the final rendering loop (dynamic dispatch)
+        ("Documenter.process_docs", {"drop_last": "for doc in docs:\n    doc.process(self.writer)"}),
+    ]),
+    ("src/cminx/__init__.py", [
+        # the naming computation: from the first assignment of prefix to the last one of module_name
+        ("document_single_file", {"name": "document_single_file_names",
+                                  "from_assign": "prefix", "to_assign": "module_name",
+                                  "result": ["header_name", "module_name"],
+                                  "then_call": "Documenter(file, header_name, module_name, settings)",
+                                  "opaque_params": ["file", "root"]}),
+    ]),
 ]
+SETTINGS_FILE = "src/cminx/config.py"
+# pure library calls that are abstracted into arguments of the translated function: result type
+OPAQUE_CALLS = {"os.path.isdir": "bool", "os.path.relpath": "str", "os.path.basename": "str"}
+CMAKE_EXT_SUB = (r"\.cmake$", "")      # the only re.sub the translator knows
 
 # identifiers that must not be used as Gallina binders (Coq keywords, the s"..." notation of
 # Base/Str.v, names this translator generates itself)
@@ -112,6 +129,12 @@ def coq_type(t, top=True):
         return "DocTypes.entry"
     if t == "await":
         return "Aggregator.await"
+    if t == "modctx":
+        return "str"
+    if isinstance(t, tuple) and t[0] == "refs":
+        return "list nat"
+    if isinstance(t, tuple) and t[0] == "ref":
+        return "nat"
     if isinstance(t, tuple) and t[0] == "list" and t[1] is not None:
         r = "list " + coq_type(t[1], False)
     elif isinstance(t, tuple) and t[0] == "opt":
@@ -270,7 +293,7 @@ class Module:
             return None
         if isinstance(a, ast.Attribute) and isinstance(a.value, ast.Name) and a.value.id == "CMakeParser":
             return {"Command_invocationContext": "cmd", "Single_argumentContext": "arg",
-                    "Compound_argumentContext": "arg"}.get(a.attr)
+                    "Compound_argumentContext": "arg", "Documented_moduleContext": "modctx"}.get(a.attr)
         if isinstance(a, ast.Subscript) and isinstance(a.value, ast.Name):
             if a.value.id in ("List", "Tuple", "list", "tuple", "Sequence"):
                 inner = self.annotation(a.slice)
@@ -346,6 +369,11 @@ def target_names(stmts, in_loop=False):
             add(t.id)
         elif isinstance(t, ast.Attribute) and isinstance(t.value, ast.Name) and t.value.id == "self":
             add("self." + t.attr)
+        elif isinstance(t, ast.Attribute) and isinstance(t.value, ast.Attribute) \
+                and isinstance(t.value.value, ast.Name) and t.value.value.id == "self":
+            add(f"self.{t.value.attr}.{t.attr}")        # self.writer.title
+        elif isinstance(t, ast.Attribute) and isinstance(t.value, ast.Name):
+            add("@ref:" + t.value.id)                   # r.name = v through a reference r into a list
         elif isinstance(t, ast.Subscript):
             lhs(t.value)
         else:
@@ -354,8 +382,10 @@ def target_names(stmts, in_loop=False):
     def calls(e):
         for c in ast.walk(e):
             if isinstance(c, ast.Call) and isinstance(c.func, ast.Attribute):
-                if c.func.attr == "append":
+                if c.func.attr in ("append", "insert"):
                     lhs(c.func.value)
+                    if c.func.attr == "insert" and isinstance(c.func.value, ast.Name):
+                        add("@shift:" + c.func.value.id)    # the references into that list move
                 elif c.func.attr in WRITER_METHODS:
                     add(WORLD)
 
@@ -437,11 +467,13 @@ ENTRY_CONSTRUCTORS = {
     "OptionDocumentation": ("DocTypes.EOption", 5, [("str", 0), ("str", 1), ("const", 2, "bool"), ("opt", 3),
                                                     ("str", 4)]),
     # params and is_macro keep their dataclass defaults ([] and False)
+    "ModuleDocumentation": ("DocTypes.EModule", 2, [("str", 0), ("str", 1)]),
     "TestDocumentation": ("DocTypes.ETest false", 3, [("str", 0), ("str", 1), ("bool", 2), ("lit", "[]"),
                                                       ("lit", "false")]),
     "SectionDocumentation": ("DocTypes.ETest true", 3, [("str", 0), ("str", 1), ("bool", 2), ("lit", "[]"),
                                                         ("lit", "false")]),
 }
+ENTRY_RECOGNIZERS = {"ModuleDocumentation": "py_is_module_entry"}
 VARTYPES = {"STRING": "DocTypes.VString", "LIST": "DocTypes.VList", "UNSET": "DocTypes.VUnset"}
 DOCUMENTED = "self.documented"      # THE list of documentation objects (index space of `await`)
 LOG_METHODS = {"debug", "info", "warning", "error", "critical", "exception"}
@@ -464,12 +496,18 @@ class Var:
 # one function
 
 class Fn:
-    def __init__(self, mod, qual, fn, cname):
+    def __init__(self, mod, qual, fn, cname, opts=None):
         self.mod = mod
         self.qual = qual
         self.fn = fn
         self.cname = cname
-        self.fields = mod.fields(cname) if cname else {}
+        self.opts = dict(opts or {})
+        self.stmts = self.body_slice()
+        scan = ast.Module(body=self.stmts, type_ignores=[])
+        self.fields = dict(mod.fields(cname)) if cname else {}
+        for f_, t_ in list(self.fields.items()):
+            if t_ == "writer":
+                self.fields[f_ + ".title"] = "str"     # the title of the RSTWriter held in that field
         self.field_params = []          # fields read before written (become parameters)
         self.ever_written = []          # fields assigned anywhere so far (python attr names)
         self.loops = []                 # stack of (state coq names, break_allowed)
@@ -479,10 +517,10 @@ class Fn:
         self.notes = []
         self.field_types = {}
         self.coq_names = {}             # Gallina binder -> the python variable it stands for
-        self.out_fields = [n[5:] for n in target_names(fn.body) if n.startswith("self.")]
+        self.out_fields = [n[5:] for n in target_names(self.stmts) if n.startswith("self.")]
         self.inplace_mutated = set()
-        for n in ast.walk(fn):
-            if isinstance(n, ast.Call) and isinstance(n.func, ast.Attribute) and n.func.attr == "append":
+        for n in ast.walk(scan):
+            if isinstance(n, ast.Call) and isinstance(n.func, ast.Attribute) and n.func.attr in ("append", "insert"):
                 r = n.func.value
                 self.inplace_mutated.add(r.id if isinstance(r, ast.Name) else
                                          "self." + r.attr if isinstance(r, ast.Attribute) else "?")
@@ -492,6 +530,11 @@ class Fn:
                         r = tg.value
                         self.inplace_mutated.add(r.id if isinstance(r, ast.Name) else
                                                  "self." + r.attr if isinstance(r, ast.Attribute) else "?")
+        self.settings_params = {}       # parameter name -> Settings class name
+        self.opaque_params = set()      # unannotated parameters that only occur inside abstracted library calls
+        self.abstract_params = {}       # Gallina argument -> (type, the Python expression it stands for)
+        self.out_params = []            # explicit list parameters that the function mutates in place
+        self.explicit_keys = set()
         self.rec_param = None           # the parameter of a function over argument contexts (recursion allowed)
         self.recursive = False
         self.declared_result = None
@@ -499,44 +542,85 @@ class Fn:
         self.mutated_params = []        # list fields that got an alias (may be mutated through it)
         # fields / parameters that the function compares with None are Optional, whatever the annotation says
         self.optional = []
-        for n in ast.walk(fn):
+        for n in ast.walk(scan):
             if isinstance(n, ast.Compare) and len(n.ops) == 1 and isinstance(n.ops[0], (ast.Is, ast.IsNot)) \
                     and isinstance(n.comparators[0], ast.Constant) and n.comparators[0].value is None:
                 x = n.left
                 if isinstance(x, ast.Attribute) and isinstance(x.value, ast.Name) and x.value.id == "self":
                     if x.attr not in self.optional:
                         self.optional.append(x.attr)
-        self.has_raise = any(isinstance(n, ast.Raise) for n in ast.walk(fn))
-        self.has_return = any(isinstance(n, ast.Return) and n.value is not None for n in ast.walk(fn))
-        for n in ast.walk(fn):
+        self.has_raise = any(isinstance(n, ast.Raise) for n in ast.walk(scan))
+        self.has_return = any(isinstance(n, ast.Return) and n.value is not None for n in ast.walk(scan))
+        for n in ast.walk(scan):
             if isinstance(n, (ast.Lambda, ast.FunctionDef, ast.AsyncFunctionDef, ast.ClassDef)) and n is not fn:
                 fail(n, "nested definition")
             if isinstance(n, (ast.Global, ast.Nonlocal, ast.With, ast.While, ast.Yield, ast.YieldFrom,
                               ast.Await, ast.Delete, ast.Assert, ast.Import, ast.ImportFrom, ast.NamedExpr)):
                 fail(n, "statement/expression outside the subset")
 
+    def body_slice(self):
+        """the statements to translate: the whole body, or the part selected by the target's options"""
+        body = list(self.fn.body)
+        o = self.opts
+        if "drop_last" in o:
+            # everything but the final statement, which must be exactly the given one
+            if not body or ast.unparse(body[-1]) != o["drop_last"]:
+                fail(self.fn, f"{self.qual} does not end with the statement `{o['drop_last']}`")
+            return body[:-1]
+        if "from_assign" in o:
+            starts = [i for i, s_ in enumerate(body) if isinstance(s_, ast.Assign) and len(s_.targets) == 1
+                      and isinstance(s_.targets[0], ast.Name) and s_.targets[0].id == o["from_assign"]]
+            ends = [i for i, s_ in enumerate(body)
+                    if any(isinstance(n, ast.Name) and isinstance(n.ctx, ast.Store) and n.id == o["to_assign"]
+                           for n in ast.walk(s_))]
+            if not starts or not ends or ends[-1] < starts[0]:
+                fail(self.fn, f"{self.qual}: no part from the first assignment of {o['from_assign']} to the last "
+                              f"assignment of {o['to_assign']}")
+            rest = body[ends[-1] + 1:]
+            for s_ in rest:
+                for n in ast.walk(s_):
+                    if isinstance(n, ast.Name) and isinstance(n.ctx, ast.Store) and n.id in o["result"]:
+                        fail(n, f"{n.id} is assigned again after the translated part")
+            if not any(isinstance(n, ast.Call) and ast.unparse(n) == o["then_call"]
+                       for s_ in rest for n in ast.walk(s_)):
+                fail(self.fn, f"{self.qual}: the results are not passed on by `{o['then_call']}`")
+            return body[starts[0]:ends[-1] + 1]
+        return body
+
     # ---- variables ------------------------------------------------------------------
-    def read_field(self, node, env):
-        key = "self." + node.attr
+    @staticmethod
+    def field_key(node):
+        """self.f -> 'self.f' ; self.f.g -> 'self.f.g' ; anything else -> None"""
+        if isinstance(node, ast.Attribute) and isinstance(node.value, ast.Name) and node.value.id == "self":
+            return "self." + node.attr
+        if isinstance(node, ast.Attribute) and isinstance(node.value, ast.Attribute) \
+                and isinstance(node.value.value, ast.Name) and node.value.value.id == "self":
+            return f"self.{node.value.attr}.{node.attr}"
+        return None
+
+    def read_field(self, node, env, key=None):
+        key = key or self.field_key(node)
+        attr = key[5:]
         if key in env:
             return env[key]
-        if node.attr not in self.fields:
-            fail(node, f"self.{node.attr} is not a field declared in the class")
-        t = self.fields[node.attr]
+        if attr not in self.fields:
+            fail(node, f"self.{attr} is not a field declared in the class")
+        t = self.fields[attr]
         if t is None:
-            fail(node, f"no usable type annotation for field self.{node.attr}")
-        if node.attr in self.optional and not (isinstance(t, tuple) and t[0] == "opt"):
-            note = (f"self.{node.attr} is compared with None in this function: it is translated as "
+            fail(node, f"no usable type annotation for field self.{attr}")
+        if attr in self.optional and not (isinstance(t, tuple) and t[0] == "opt"):
+            note = (f"self.{attr} is compared with None in this function: it is translated as "
                     f"Optional[{coq_type(t)}] although its annotation does not say so")
             if note not in self.notes:
                 self.notes.append(note)
             t = ("opt", t)
-        if node.attr not in self.field_params:
-            self.field_params.append(node.attr)
-        self.field_types[node.attr] = t
-        if self.coq_names.setdefault("self_" + node.attr, key) != key:
-            fail(node, f"name clash on self_{node.attr}")
-        return Var("self_" + node.attr, t, frozenset([key]) if is_list(t) else None)
+        if attr not in self.field_params:
+            self.field_params.append(attr)
+        self.field_types[attr] = t
+        coq = "self_" + attr.replace(".", "_")
+        if self.coq_names.setdefault(coq, key) != key:
+            fail(node, f"name clash on {coq}")
+        return Var(coq, t, frozenset([key]) if is_list(t) else None)
 
     def lookup(self, node, env):
         """Name or self.attr -> (python key, Var)"""
@@ -544,9 +628,9 @@ class Fn:
             if node.id not in env:
                 fail(node, f"variable {node.id} is not (definitely) defined here")
             return node.id, env[node.id]
-        if isinstance(node, ast.Attribute) and isinstance(node.value, ast.Name) and node.value.id == "self" \
-                and self.cname:
-            return "self." + node.attr, self.read_field(node, env)
+        key = self.field_key(node)
+        if key is not None and self.cname and (key.count(".") == 1 or key[5:] in self.fields):
+            return key, self.read_field(node, env, key)
         fail(node, "not a variable")
 
     def bind(self, env, key, type_, group=None):
@@ -560,7 +644,7 @@ class Fn:
                 if k in env:
                     env[k] = Var(env[k].coq, env[k].type, g)
         if key.startswith("self."):
-            coq = "self_" + key[5:]
+            coq = "self_" + key[5:].replace(".", "_")
             if key[5:] not in self.ever_written:
                 self.ever_written.append(key[5:])
         elif key == WORLD:
@@ -601,9 +685,21 @@ class Fn:
                 and isinstance(e.operand.value, int) and not isinstance(e.operand.value, bool):
             return f"(-{e.operand.value})%Z", "zint"
         if isinstance(e, ast.Name) or (isinstance(e, ast.Attribute) and isinstance(e.value, ast.Name)
-                                       and e.value.id == "self"):
+                                       and e.value.id == "self") \
+                or (self.field_key(e) is not None and self.field_key(e)[5:] in self.fields):
             _, v = self.lookup(e, env)
             return v.coq, v.type
+        if isinstance(e, ast.Attribute) and isinstance(e.value, ast.Name) and e.value.id in env \
+                and isinstance(env[e.value.id].type, tuple) and env[e.value.id].type[0] == "ref":
+            r = env[e.value.id]
+            if e.attr != "name":
+                fail(e, "attribute of a referenced documentation object other than .name")
+            lst = self.lookup(ast.copy_location(ast.Name(id=r.type[1], ctx=ast.Load()), e), env)[1]
+            return f"py_entry_name (py_deref {lst.coq} {r.coq})", "str"
+        if isinstance(e, ast.Attribute) and isinstance(e.value, ast.Attribute) \
+                and isinstance(e.value.value, ast.Name) and e.value.value.id in self.settings_params:
+            # settings.<group>.<option>: an argument of the translated function
+            return self.settings_option(e, env)
         if isinstance(e, ast.Attribute) and isinstance(e.value, ast.Name) and e.value.id in self.mod.enums:
             if e.attr not in self.mod.enums[e.value.id]:
                 fail(e, "unknown enum member")
@@ -689,6 +785,28 @@ class Fn:
             return self.call(e, env)
         fail(e, "expression")
 
+    def settings_option(self, e, env):
+        """settings.<group>.<option> for a parameter annotated Settings: an argument of the translated
+        function, typed by the dataclasses of config.py (a field whose default is None is Optional)"""
+        cls = self.settings_params[e.value.value.id]
+        group, option = e.value.attr, e.attr
+        try:
+            gann, _ = SETTINGS_CLASSES[cls][group]
+            gcls = gann.id
+            oann, odefault = SETTINGS_CLASSES[gcls][option]
+        except (KeyError, AttributeError):
+            fail(e, "settings option that config.py does not declare")
+        ty = self.mod.annotation(oann)
+        if ty is None:
+            fail(e, "settings option with a type outside the subset")
+        if isinstance(odefault, ast.Constant) and odefault.value is None and not (isinstance(ty, tuple)
+                                                                                 and ty[0] == "opt"):
+            ty = ("opt", ty)
+        pname = f"{e.value.value.id}_{group}_{option}"
+        if pname not in self.abstract_params:
+            self.abstract_params[pname] = (ty, ast.unparse(e))
+        return pname, ty
+
     def coerce(self, x, t, want):
         """the Gallina term x of type t as a term of type want (where unify(t, want) == want)"""
         if t == want:
@@ -761,6 +879,8 @@ class Fn:
                 return f"py_range 0 {paren_arg(args[0][0])}", "int"
             return f"py_range {paren_arg(args[0][0])} {paren_arg(args[1][0])}", "int"
         x, t = self.expr(it, env)
+        if isinstance(t, tuple) and t[0] == "refs":
+            return x, ("ref", t[1])
         if t == "str":
             return f"py_chars {paren_arg(x)}", "str"
         if is_list(t) and t[1] is not None:
@@ -788,6 +908,14 @@ class Fn:
             fail(e, "async comprehension")
         ifs = list(g.ifs)
         it = g.iter
+        # references:  [x for x in L if isinstance(x, <documentation class>)]  for a list L of entries
+        if isinstance(g.target, ast.Name) and isinstance(e.elt, ast.Name) and e.elt.id == g.target.id \
+                and isinstance(it, ast.Name) and it.id in env and env[it.id].type == ("list", "entry") \
+                and len(ifs) == 1 and isinstance(ifs[0], ast.Call) and isinstance(ifs[0].func, ast.Name) \
+                and ifs[0].func.id == "isinstance" and len(ifs[0].args) == 2 \
+                and isinstance(ifs[0].args[0], ast.Name) and ifs[0].args[0].id == g.target.id \
+                and isinstance(ifs[0].args[1], ast.Name) and ifs[0].args[1].id in ENTRY_RECOGNIZERS:
+            return f"py_refs_where {ENTRY_RECOGNIZERS[ifs[0].args[1].id]} {env[it.id].coq}", ("refs", it.id)
         # the argument children of a parser context:  X.getChildren()  filtered by isinstance
         if isinstance(it, ast.Call) and isinstance(it.func, ast.Attribute) and it.func.attr == "getChildren" \
                 and not it.args and not it.keywords:
@@ -877,7 +1005,34 @@ class Fn:
             if tx == "arg" and isinstance(c, ast.Attribute) and isinstance(c.value, ast.Name) \
                     and c.value.id == "CMakeParser" and c.attr == "Compound_argumentContext":
                 return f"py_is_compound {paren_arg(x)}", "bool"
+            if tx == "entry" and isinstance(c, ast.Name) and c.id in ENTRY_RECOGNIZERS and c.id not in env:
+                return f"{ENTRY_RECOGNIZERS[c.id]} {paren_arg(x)}", "bool"
             fail(e, "isinstance outside the parser-context vocabulary")
+        if isinstance(f, ast.Attribute) and f.attr == "getText" and not e.args and isinstance(f.value, ast.Call) \
+                and isinstance(f.value.func, ast.Attribute) and f.value.func.attr == "Module_docstring" \
+                and not f.value.args and not f.value.keywords:
+            x, tx = self.expr(f.value.func.value, env)
+            if tx != "modctx":
+                fail(e, f".Module_docstring() on a value of type {tx}")
+            return x, "str"         # a Documented_moduleContext is the text of its Module_docstring token
+        dotted = dotted_name(f)
+        if dotted in OPAQUE_CALLS and dotted.split(".")[0] not in env:
+            # a pure library call on parameters that are never assigned: an argument of the translated function
+            if not e.args or not all(isinstance(a, ast.Name) and a.id in self.opaque_params for a in e.args):
+                fail(e, f"{dotted} on something other than the plain parameters {sorted(self.opaque_params)}")
+            pname = dotted.replace(".", "_") + "_" + "_".join(a.id for a in e.args)
+            if pname not in self.abstract_params:
+                self.abstract_params[pname] = (OPAQUE_CALLS[dotted], ast.unparse(e))
+            return pname, OPAQUE_CALLS[dotted]
+        if dotted == "re.sub" and "re" not in env:
+            if len(e.args) != 3 or not all(isinstance(a, ast.Constant) and isinstance(a.value, str)
+                                            for a in e.args[:2]) \
+                    or (e.args[0].value, e.args[1].value) != CMAKE_EXT_SUB:
+                fail(e, "re.sub with a pattern / replacement other than (r'\\.cmake$', '')")
+            x, tx = self.expr(e.args[2], env)
+            if tx != "str":
+                fail(e, f"re.sub on a value of type {tx}")
+            return f"py_re_sub_cmake_ext {paren_arg(x)}", "str"
         if isinstance(f, ast.Attribute) and f.attr in ("getText", "single_argument") and not e.args:
             x, tx = self.expr(f.value, env)
             if f.attr == "getText" and tx == "arg":
@@ -913,7 +1068,7 @@ class Fn:
         if isinstance(f, ast.Name):
             if f.id == "len" and len(e.args) == 1:
                 x, t = self.expr(e.args[0], env)
-                if t != "str" and not is_list(t):
+                if t != "str" and not is_list(t) and not (isinstance(t, tuple) and t[0] == "refs"):
                     fail(e, f"len of a value of type {t}")
                 return f"py_len {paren_arg(x)}", "int"
             if f.id == "str" and len(e.args) == 1:
@@ -961,6 +1116,20 @@ class Fn:
                 if ts != "str" or unify(tx, ("list", "str")) is None:
                     fail(e, f"join of {tx} with separator {ts}")
                 return f"py_join {paren_arg(sep)} {paren_arg(xs)}", "str"
+            if m == "strip" and not e.args:
+                x, tx = self.expr(f.value, env)
+                if tx != "str":
+                    fail(e, f".strip() on a value of type {tx}")
+                return f"py_strip {paren_arg(x)}", "str"
+            if m == "replace" and len(e.args) == 2:
+                x, tx = self.expr(f.value, env)
+                old, new = e.args
+                if tx != "str" or not (isinstance(old, ast.Constant) and isinstance(old.value, str) and old.value):
+                    fail(e, ".replace needs a str receiver and a non-empty constant pattern")
+                nw, tn = self.expr(new, env)
+                if tn != "str":
+                    fail(e, f".replace with a replacement of type {tn}")
+                return f"py_replace {paren_arg(x)} {paren_arg(pystr(old.value))} {paren_arg(nw)}", "str"
             if m in ("lstrip", "rstrip", "split", "startswith"):
                 x, tx = self.expr(f.value, env)
                 if tx != "str" or len(e.args) != 1:
@@ -993,6 +1162,15 @@ class Fn:
             if isinstance(op, (ast.Is, ast.IsNot)):
                 if not (isinstance(r, ast.Constant) and r.value is None):
                     fail(e, "is / is not with something other than None")
+                if isinstance(l, ast.Attribute) and isinstance(l.value, ast.Name) and l.value.id in env \
+                        and isinstance(env[l.value.id].type, tuple) and env[l.value.id].type[0] == "ref":
+                    self.expr(l, env)
+                    note = (f"line {e.lineno}: the name of a documentation object is a str in Model.DocTypes.entry, "
+                            f"never None: `{ast.unparse(e)}` is the constant "
+                            + ("false" if isinstance(op, ast.Is) else "true"))
+                    if note not in self.notes:
+                        self.notes.append(note)
+                    return "false" if isinstance(op, ast.Is) else "true"
                 x, t = self.expr(l, env)
                 if isinstance(t, tuple) and t[0] == "opt":
                     return ("py_is_none " if isinstance(op, ast.Is) else "py_is_not_none ") + paren_arg(x)
@@ -1161,9 +1339,27 @@ class Fn:
                     and isinstance(e.func.value, ast.Attribute) and isinstance(e.func.value.value, ast.Name) \
                     and e.func.value.value.id == "self" and e.func.value.attr == "logger":
                 return cont(env)        # self.logger.<level>(...): no effect on the computation
+            if isinstance(e, ast.Call) and isinstance(e.func, ast.Attribute) and e.func.attr == "insert" \
+                    and len(e.args) == 2 and not e.keywords and isinstance(e.args[0], ast.Constant) \
+                    and e.args[0].value == 0 and not isinstance(e.args[0].value, bool):
+                key, v = self.lookup(e.func.value, env)
+                x, tx = self.expr(e.args[1], env)
+                if not is_list(v.type) or unify(v.type, ("list", tx)) is None:
+                    fail(st, f"insert of {tx} into a value of type {v.type}")
+                self.note_param_mutation(st, key)
+                refs = [k for k in sorted(env) if env[k].type == ("refs", key)]
+
+                def shifted(envx, todo):
+                    if not todo:
+                        return cont(envx)
+                    envy, c2 = self.bind(envx, todo[0], ("refs", key))
+                    return let(c2, f"py_shift_refs {envx[todo[0]].coq}", shifted(envy, todo[1:]))
+                return self.mutate(env, key, v, f"py_insert_front {v.coq} {paren_arg(x)}",
+                                   unify(v.type, ("list", tx)), lambda envx: shifted(envx, refs))
             if isinstance(e, ast.Call) and isinstance(e.func, ast.Attribute) and e.func.attr == "append" \
                     and len(e.args) == 1 and not e.keywords:
                 key, v = self.lookup(e.func.value, env)
+                self.note_param_mutation(st, key)
                 x, t = self.expr(e.args[0], env)
                 if not is_list(v.type) or unify(v.type, ("list", t)) is None:
                     fail(st, f"append of {t} to a value of type {v.type}")
@@ -1221,6 +1417,12 @@ class Fn:
 
         fail(st, "statement")
 
+    def note_param_mutation(self, node, key):
+        """an explicit list parameter mutated in place is a result of the translated function"""
+        if key in self.explicit_keys and key not in self.out_params:
+            fail(node, f"the parameter {key} is mutated in place only through a reference / in a way the "
+                       f"translator did not foresee")
+
     def try_as_if(self, st, env):
         """try: x = xs[e]; <assignments that cannot raise>  except IndexError: <handler ending in return>
         is   if e < len(xs): <try body> else: <handler>   (e is a natural number, so xs[e] raises
@@ -1265,10 +1467,7 @@ class Fn:
         env2 = env
         for key in keys:
             if key.startswith("self.") and key not in env2:
-                node = ast.Attribute(value=ast.Name(id="self", ctx=ast.Load()), attr=key[5:], ctx=ast.Load())
-                ast.copy_location(node, self.fn)
-                node.value.lineno = node.lineno
-                v = self.read_field(node, env2)
+                v = self.read_field(self.fn, env2, key)
                 env2 = dict(env2)
                 env2[key] = v
         return env2
@@ -1283,14 +1482,23 @@ class Fn:
         outs = []
         if self.uses_world:
             outs.append((env[WORLD].coq, "world"))
+        for pk in self.out_params:
+            outs.append((env[pk].coq, env[pk].type))
         for f in fields:
             v = env["self." + f]
             outs.append((v.coq, v.type))
+        if self.opts.get("result"):
+            # a slice of a function body: its result is the named local variables
+            outs = []
+            for rv in self.opts["result"]:
+                if rv not in env:
+                    fail(node, f"{rv} is not defined at the end of the translated part")
+                outs.append((env[rv].coq, env[rv].type))
         if not outs:
             fail(node, "function without result")
         t = outs[0][1] if len(outs) == 1 else ("tuple", [x[1] for x in outs])
         self.set_result(node, t)
-        self.result_fields = ["world"] * (1 if self.uses_world else 0) + ["self_" + f for f in fields]
+        self.result_fields = [o[0] for o in outs]
         x = tup_expr([o[0] for o in outs])
         return f"Some {paren_arg(x)}" if self.has_raise else x
 
@@ -1325,16 +1533,31 @@ class Fn:
             x, t = self.expr(value, env)
             if not is_list(v.type) or unify(v.type, ("list", t)) is None:
                 fail(st, f"xs[-1] = v with xs of type {v.type} and v of type {t}")
+            if any(env[k].type == ("refs", key) for k in env):
+                fail(st, f"{key}[-1] = v while references into {key} are alive")
+            self.note_param_mutation(st, key)
             return self.mutate(env, key, v, f"py_set_last {v.coq} {paren_arg(x)}", unify(v.type, ("list", t)), cont)
         if isinstance(tgt, ast.Name):
             key = tgt.id
             if key == "self":
                 fail(st, "assignment to self")
-        elif isinstance(tgt, ast.Attribute) and isinstance(tgt.value, ast.Name) and tgt.value.id == "self" \
-                and self.cname:
-            key = "self." + tgt.attr
-            if tgt.attr not in self.fields:
-                fail(st, f"self.{tgt.attr} is not a field declared in the class")
+        elif self.field_key(tgt) is not None and self.cname:
+            key = self.field_key(tgt)
+            if key[5:] not in self.fields:
+                fail(st, f"{key} is not a field declared in the class")
+        elif isinstance(tgt, ast.Attribute) and isinstance(tgt.value, ast.Name) and tgt.value.id in env \
+                and isinstance(env[tgt.value.id].type, tuple) and env[tgt.value.id].type[0] == "ref":
+            # r.name = v  through a reference r into a list of documentation objects
+            r = env[tgt.value.id]
+            if tgt.attr != "name":
+                fail(st, "assignment to an attribute of a referenced documentation object other than .name")
+            lkey = r.type[1]
+            lk, lv = self.lookup(ast.copy_location(ast.Name(id=lkey, ctx=ast.Load()), st), env)
+            x, tx = self.expr(value, env)
+            if tx != "str":
+                fail(st, f".name assigned a value of type {tx}")
+            self.note_param_mutation(st, lkey)
+            return self.mutate(env, lkey, lv, f"py_set_ref_name {lv.coq} {r.coq} {paren_arg(x)}", lv.type, cont)
         else:
             fail(st, "assignment target")
         wc = self.writer_call(value, env)
@@ -1401,15 +1624,31 @@ class Fn:
             fail(stmts[0] if stmts else self.fn, "internal: branch with several exits")
         return got[0]
 
-    def expand_aliases(self, names, env):
+    def expand_aliases(self, names, env, extra=None):
+        """the variables that change when the named ones are assigned / mutated: list aliases, the list a
+        reference points into (@ref:x), the reference lists into a list that is restructured"""
         out = []
-        for n in names:
+
+        def add(n):
             if n not in out:
                 out.append(n)
+        for n in names:
+            if n.startswith("@ref:"):
+                x = n[5:]
+                ty = (extra or {}).get(x) or (env[x].type if x in env else None)
+                if not (isinstance(ty, tuple) and ty[0] == "ref"):
+                    raise Unsupported(f"{Ctx.file}: {self.qual}: attribute assignment through {x}, which is "
+                                      f"not a reference into a list of documentation objects")
+                n = ty[1]
+            if n.startswith("@shift:"):
+                for k in sorted(env):
+                    if env[k].type == ("refs", n[7:]):
+                        add(k)
+                continue
+            add(n)
             if n in env and env[n].group:
                 for a in sorted(env[n].group):
-                    if a not in out:
-                        out.append(a)
+                    add(a)
         return out
 
     def none_test(self, test, env):
@@ -1519,7 +1758,7 @@ class Fn:
         xs, te = self.iterable(st.iter, env)
         if lv != "_" and lv in env:
             fail(st, f"loop variable {lv} overwrites a local variable")
-        assigned = self.expand_aliases(target_names(st.body), env)
+        assigned = self.expand_aliases(target_names(st.body), env, {lv: te})
         if lv in assigned:
             fail(st, f"loop variable {lv} is assigned in the loop body")
         for n in ast.walk(st.iter):
@@ -1611,6 +1850,21 @@ class Fn:
         explicit = []
         for p in params:
             t = self.mod.annotation(p.annotation)
+            special = None
+            if p.annotation is None and p.arg in self.opts.get("opaque_params", []):
+                special = "opaque"
+            elif isinstance(p.annotation, ast.Name) and p.annotation.id in SETTINGS_CLASSES:
+                special = "settings"
+            if special:
+                # never bound: only usable inside abstracted calls / as settings.<group>.<option>
+                if any(isinstance(n, ast.Name) and isinstance(n.ctx, ast.Store) and n.id == p.arg
+                       for n in ast.walk(fn)):
+                    fail(p, f"the parameter {p.arg} is assigned in the function")
+                if special == "opaque":
+                    self.opaque_params.add(p.arg)
+                else:
+                    self.settings_params[p.arg] = p.annotation.id
+                continue
             if t is None:
                 fail(p, "parameter without a type annotation of the subset")
             if t == "writer" and WORLD not in env:
@@ -1618,6 +1872,9 @@ class Fn:
                 self.uses_world = True
             env, c = self.bind(env, p.arg, t)
             explicit.append((c, t))
+            self.explicit_keys.add(p.arg)
+            if is_list(t) and p.arg in self.inplace_mutated:
+                self.out_params.append(p.arg)
         if fn.returns is not None and not (isinstance(fn.returns, ast.Constant) and fn.returns.value is None):
             rt = self.mod.annotation(fn.returns)
             if rt is None:
@@ -1628,18 +1885,19 @@ class Fn:
 
         def kend(e):
             return self.exit_value(e, fn)
-        body = self.block(fn.body, env, kend)
+        body = self.block(self.stmts, env, kend)
         binders = []
         if self.uses_world:
             binders.append((WORLD, "world"))
         binders += explicit
+        binders += [(n, ty) for n, (ty, _) in self.abstract_params.items()]
         for f in self.fields:
             if f in self.field_params:
-                binders.append(("self_" + f, self.field_types[f]))
+                binders.append(("self_" + f.replace(".", "_"), self.field_types[f]))
         rt = coq_type(self.result_type)
         if self.has_raise:
             rt = "option " + coq_type(self.result_type, False)
-        name = self.qual.replace(".", "_")
+        name = self.opts.get("name") or self.qual.replace(".", "_")
         sig = " ".join(f"({c} : {coq_type(t)})" for c, t in binders)
         if self.recursive:
             if unify(self.result_type, self.declared_result) is None or self.has_raise:
@@ -1649,6 +1907,18 @@ class Fn:
                     f"  (fun {name} {c0} =>\n{ind(body, 5)})\n  {c0}")
         text = f"Definition {name} {sig} : {rt} :=\n{ind(body)}."
         return name, text, [t for _, t in binders], self.result_type
+
+
+def dotted_name(f):
+    """a.b.c for an attribute chain on a plain name, else None"""
+    parts = []
+    while isinstance(f, ast.Attribute):
+        parts.append(f.attr)
+        f = f.value
+    if isinstance(f, ast.Name):
+        parts.append(f.id)
+        return ".".join(reversed(parts))
+    return None
 
 
 def paren_arg(x):
@@ -1765,6 +2035,28 @@ HEADER = """(* GENERATED by translators/py2coq.py from the Python source of CMin
    of that object:  let x_index := py_len self_documented in let self_documented := py_append .. in
    let self_f := Aggregator.AwTop x_index in ...   A list stored in a documentation object must not be mutated
    in place anywhere in the function.
+   Batch 3 (enterDocumented_module, Documenter.process_docs, document_single_file):
+     x.replace(CONST, e) / x.strip()    py_replace x CONST e (CONST a non-empty constant) / py_strip x (Python whitespace)
+     re.sub(r'\\.cmake$', '', x)         py_re_sub_cmake_ext x = Naming.strip_cmake_ext x ; no other regular expression
+     ctx.Module_docstring().getText()   ctx : a Documented_moduleContext is the text of its Module_docstring token
+     ModuleDocumentation(n, d)          DocTypes.EModule n d ;  isinstance(x, ModuleDocumentation) is py_is_module_entry x
+     xs.insert(0, e)                    let xs := py_insert_front xs e in ...
+     an explicit list parameter that the function mutates in place is returned, before the fields
+     self.writer.title = E              let self_writer_title := E in ... : the title of the RSTWriter held in the field
+                                        writer is a str variable of the translated function (argument and result)
+   References (the aliasing rule in general form): where Python holds references to elements of a list L of
+   documentation objects and mutates the objects through them, a reference is the POSITION of the object in L:
+     refs = [x for x in L if isinstance(x, ModuleDocumentation)]     let refs := py_refs_where py_is_module_entry L
+     L.insert(0, e)  also gives  let refs := py_shift_refs refs  for every such refs ;  L[-1] = v is rejected then
+     for r in refs: .. r.name ..        py_entry_name (py_deref L r)       (r.name is None: the constant false, names are str)
+     r.name = v                         let L := py_set_ref_name L r v in ...
+   Abstracted values: the pure library calls os.path.isdir / os.path.relpath / os.path.basename applied to plain
+   parameters that are never assigned, and the options settings.<group>.<option> of a parameter annotated Settings
+   (typed by the dataclasses of config.py; a field whose default is None is Optional) are ARGUMENTS of the translated
+   function, one per distinct expression, in order of first use: the function is the code's dataflow given those values.
+   Parts of a function: a target may select the statements from the first assignment of one variable to the last
+   assignment of another (the results being named locals that the function then passes on in a given call, and
+   does not assign again), or everything but a given final statement; the generated comment says which.
    Arguments of a translated function: (the RST document `world`, when the function has an
    RSTWriter parameter;) the explicit Python parameters in order; then, for a method, the fields
    self.f that the method reads before assigning them, in the order in which the class declares
@@ -1796,7 +2088,22 @@ def emit_enum(name, members):
     return "\n".join(lines)
 
 
+SETTINGS_CLASSES = {}      # dataclass name -> {field: (annotation, default)} from config.py
+
+
+def load_settings_classes(repo):
+    path = repo / SETTINGS_FILE
+    if not path.is_file():
+        raise Unsupported(f"{SETTINGS_FILE}: source file not found")
+    for n in ast.parse(path.read_text(encoding="utf-8")).body:
+        if isinstance(n, ast.ClassDef) and any(isinstance(d, ast.Name) and d.id == "dataclass"
+                                               for d in n.decorator_list):
+            SETTINGS_CLASSES[n.name] = {m.target.id: (m.annotation, m.value) for m in n.body
+                                        if isinstance(m, ast.AnnAssign) and isinstance(m.target, ast.Name)}
+
+
 def generate(repo):
+    load_settings_classes(repo)
     out = [HEADER]
     for rel, names in TARGETS:
         Ctx.file = rel
@@ -1811,11 +2118,12 @@ def generate(repo):
             GLOBAL_NAMES.update([en, en + "_eqb", en + "_str"] + [f"{en}_{m}" for m in members])
         need_writer = False
         defs = []
-        for q in names:
+        for spec in names:
+            q, opts = (spec, {}) if isinstance(spec, str) else spec
             if q not in mod.functions or mod.functions[q][0] is None:
                 raise Unsupported(f"{rel}: function {q} not found (or defined twice)")
             fn, cname = mod.functions[q]
-            f = Fn(mod, q, fn, cname)
+            f = Fn(mod, q, fn, cname, opts)
             name, text, ptypes, rtype = f.translate()
             GLOBAL_NAMES.add(name)
             if f.cname is None and not f.uses_world:
@@ -1824,6 +2132,15 @@ def generate(repo):
             comment = [f"(* {rel}, {q} (line {fn.lineno})"]
             if f.has_raise:
                 comment.append("   the function can raise: result type option, None = the raise statement")
+            if "drop_last" in opts:
+                comment.append("   translated: the body without its final statement  "
+                               + " ".join(opts["drop_last"].split()))
+            if "from_assign" in opts:
+                comment.append(f"   translated: lines {f.stmts[0].lineno}-{f.stmts[-1].end_lineno}, from the first "
+                               f"assignment of {opts['from_assign']} to the last one of {opts['to_assign']}; the "
+                               f"results are what the function then passes to  {opts['then_call']}")
+            for pn, (pt, src_) in f.abstract_params.items():
+                comment.append(f"   argument {pn} : {coq_type(pt)}  stands for  " + src_.replace('"', "'"))
             if getattr(f, "result_fields", None):
                 comment.append("   result: " + ", ".join(f.result_fields))
             for n in f.notes:
